@@ -306,6 +306,24 @@ impl BeneficiaryHistory {
     }
 }
 
+#[cfg(feature = "verif-hooks")]
+impl BeneficiaryReadVersion {
+    /// Contributing `(txid, incarnation)` pairs, newest first.
+    pub(crate) fn verif_origins(&self) -> Vec<(TxId, usize)> {
+        self.origins.iter().map(|version| (version.txid, version.incarnation)).collect()
+    }
+
+    /// Rebuild a read version from `(txid, incarnation)` pairs, newest first.
+    pub(crate) fn verif_from_origins(origins: &[(TxId, usize)]) -> Self {
+        Self {
+            origins: origins
+                .iter()
+                .map(|&(txid, incarnation)| TxVersion::new(txid, incarnation))
+                .collect(),
+        }
+    }
+}
+
 #[cfg(test)]
 mod tests {
     use super::*;
